@@ -4,7 +4,8 @@ translate : the copy defaults the property rests on (ast): Generator.generate(co
             Expression.sql(copy=True), transform copies when copy, optimize() -> maybe_parse(copy=True), __deepcopy__
             carries `_hash` over before the arg loop  -> Generated/C09.lean (discharged by `generated_copy_defaults_ok`)
 prove     : Properties/C09.lean over Model/Tree.lean: footprints of set/append/replace/pop, hash/== touch only caches,
-            the frame theorem for regions, copy writes only fresh cells
+            the frame theorem for regions, copy_equal_disjoint for the iterative __deepcopy__ (same abstraction, disjoint
+            node sets, original untouched, new cells form a region), transform(copy=True) leaves every old cell untouched
 correspond: histories "build, copy, then edit ONE side" on real Expression objects and on the Lean model (per-cell dumps
             after every op must agree); on the real side every cell of the other tree must stay byte-identical
 search    : the property's own oracle on the REAL code
@@ -1100,8 +1101,8 @@ def run(chk: Check) -> None:
                        "lineage code is NOT modelled: the frame theorem is parametric in a callee that applies only these primitives inside "
                        "the copy's region, and the harness-side write monitor checks that premise on the real code")
     chk.assumptions += [
-        "a region (Region h R) is closed under parent pointers and stored children; that the cells allocated by copy() form such a "
-        "region is tied by correspondence (per-cell dumps), not proved",
+        "a region (Region h R) is closed under parent pointers and stored children (proved for the cells allocated by copy()); the "
+        "deep copies of comments / _type / _meta are not modelled (checked by the fingerprint oracle on the real code)",
         "instrumentation is harness-side monkeypatching of Expression.set/append/replace/pop/_set_parent; direct attribute writes are "
         "caught by the before/after fingerprint only",
     ]
